@@ -133,6 +133,16 @@ class DimCheck:
                 if ds[0] not in (ANY, Fraction(0)):
                     self.violations.append((f"{name} of a dimensioned quantity (degree {ds[0]})", _short(t), _literals(t)))
                 return Fraction(0)
+            if name.startswith("round"):
+                if ds[0] not in (ANY, Fraction(0)):
+                    self.violations.append((f"absolute rounding ({name}) of a dimensioned quantity (degree {ds[0]})", _short(t), [10.0 ** -int(name[5:] or 0)]))
+                return ds[0]
+            if name.startswith("rotapply"):
+                # rotation applied to a vector: quaternion components are unit-free, result has the degree of the vector
+                for d in ds[:4]:
+                    if d not in (ANY, Fraction(0)):
+                        self.violations.append(("dimensioned quaternion component", _short(t), []))
+                return self._unify(ds[4:], t, "components of a rotated vector")
             if name == "pow":
                 if ds[0] not in (ANY, Fraction(0)):
                     self.violations.append(("non-integer power of a dimensioned quantity", _short(t), []))
